@@ -196,3 +196,39 @@ func H_C06_sort_concrete() {
 	}
 	cover("done")
 }
+
+var c06Indices = [...]string{"00", "09", "10", "20", "21", "39", "40", "55", "60", "61", "99"}
+
+// H_C06_accept_order: plugins that connect at run time go through the real accept loop (handshake,
+// activation under the lock) while plugins 20, 40 and 60 are already active; two newcomers register, one
+// after the other, with indices from an 11-element set that contains values below, between, equal to and
+// above the active ones. Afterwards the active list is ascending by index and an event reaches the plugins
+// in exactly that order. (The registration timer never fires in this harness; timeouts are C17's subject.)
+//verif:property C06
+//verif:instances 11
+//verif:preempt 0
+//verif:cut (*github.com/containerd/nri/pkg/adaptation.Adaptation).newExternalPlugin => verifNewExternal
+//verif:expect-cover ordered
+func H_C06_accept_order() {
+	a, b := c06Indices[instance()], c06Indices[choose(len(c06Indices))]
+	aw := runAcceptLoopWith([]int{peerGood, peerGood}, []string{"20", "40", "60"}, []string{a, b})
+	r := aw.r
+	r.Lock()
+	active := append([]*plugin{}, r.plugins...)
+	r.Unlock()
+	vassert(len(active) == 5, "connected-plugin-not-active")
+	for i := 0; i+1 < len(active); i++ {
+		vassert(active[i].idx <= active[i+1].idx, "active-plugins-not-in-index-order")
+	}
+	n0 := len(aw.w.trace)
+	r.RunPodSandbox(context.Background(), &StateChangeEvent{Pod: &PodSandbox{}})
+	calls := aw.w.trace[n0:]
+	vassert(len(calls) == len(active), "event-not-delivered-to-every-plugin-once")
+	if len(calls) == len(active) {
+		for i, c := range calls {
+			ep := active[i].impl.ttrpcImpl.(*envPlugin)
+			vassert(c.plugin == ep.id, "invocation-order-differs-from-index-order")
+		}
+	}
+	cover("ordered")
+}
